@@ -39,7 +39,7 @@ from phyclone.tree import Tree, FSCRPDistribution, TreeJointDistribution
 ID = "C19"
 LEVEL = "other"
 THEOREMS = ["resample_index_ok", "resample_unrepaired_fails", "subtree_choice_nonempty_or_fallback", "normalise_ok",
-            "schedule_total", "schedule_untimed", "run_guards_ok"]
+            "weights_positive", "schedule_total", "schedule_untimed", "run_guards_ok"]
 BUDGET = {"quick": 100, "thorough": 900}
 MAX_JOBS = 14
 EXPLANATION = (
